@@ -253,7 +253,7 @@ def chatCallbackFixed (parse : Bytes → List Call) : List Chunk → Bytes → N
       { res with content := [], calls := (setIdx 0 calls).drop idx }
         :: chatCallbackFixed parse cs sb' calls.length
     else if c.done then
-      { res with content := if idx == 0 then sb' else c.content }
+      { res with content := if idx == 0 then sb' else [] }
         :: chatCallbackFixed parse cs sb' idx
     else chatCallbackFixed parse cs sb' idx
 
